@@ -88,6 +88,21 @@ def parse_errors(stderr, fname, linemap, text_lines):
     return diags
 
 
+def scan_assumptions(text):
+    """Mechanical scan of the text handed to Verus for everything that is assumed rather than proved."""
+    out = {'assume_specification': [], 'external_body': [], 'admit': [], 'assume': []}
+    for m in re.finditer(r'assume_specification\s*(?:<[^\[]*>)?\s*\[\s*([^\]]+(?:\][^\]]*)?)\]\s*\(', text):
+        out['assume_specification'].append(re.sub(r'\s+', ' ', m.group(1)).strip()[:120])
+    for m in re.finditer(r'#\[verifier::external_body\]\s*(?:#\[[^\]]*\]\s*)*(?:pub(?:\([a-z]+\))?\s+)?(?:const\s+)?(?:unsafe\s+)?(?:struct|fn)\s+(\w+)', text):
+        out['external_body'].append(m.group(1))
+    for m in re.finditer(r'fn\s+(\w+)[^{;]*\{[^{}]*\badmit\(\)', text):
+        out['admit'].append(m.group(1))
+    for m in re.finditer(r'[^_a-z]assume\((?!false\) ==>)', text):
+        ln = text.count('\n', 0, m.start()) + 1
+        out['assume'].append('line %d' % ln)
+    return out
+
+
 def run_crate(which, work, repo_dir, features=(), deps=None, rlimit=None, extra_text=''):
     """Assemble + verify one crate.  Returns a result dict (possibly from the cache)."""
     c = CRATES[which]
@@ -125,6 +140,7 @@ def run_crate(which, work, repo_dir, features=(), deps=None, rlimit=None, extra_
     res['path'] = path
     res['includes'] = ov.includes + [ov.path]
     res['text_sha256'] = common.sha(text)
+    res['assumption_scan'] = scan_assumptions(text)
     return res
 
 
@@ -203,4 +219,5 @@ def run_bridge(work):
     res = dict(res)
     res['cached'] = cached
     res['text_sha256'] = common.sha(text)
+    res['assumption_scan'] = scan_assumptions(text)
     return res
